@@ -228,6 +228,9 @@ def run_impl(case):
             start = p.current
             n = dns.name.from_wire_parser(p)
             return [labels_of(n), p.current - start, list(tr)]
+        if op == 19:
+            a, b = N(case[1]), N(case[2])
+            return [a == b, a != b, a < b, a <= b, a >= b, a > b, hash(a) == hash(b)]
         if op == 18:
             # Tokenizer.get() (identifier path) and Tokenizer.get_name(origin) on ASCII text
             text = bytes(case[1]).decode("latin-1")
